@@ -599,7 +599,7 @@ func cfgCaseCount(e vEnv) int64 {
 	if e.Tier == "thorough" {
 		return 500000
 	}
-	return 6000
+	return 16000
 }
 
 func TestVerifCfg(t *testing.T) {
